@@ -88,6 +88,8 @@ def gen_sequence(rng: random.Random, tier):
                              32767, -32768])
             dh = rng.choice([0, 0, 0, 0, 1, 5, 6, -1, 32767])
             size = rng.choice(SIZES if rng.random() < 0.9 else [rng.randint(0, 65535)])
+            if rng.random() < 0.02:
+                size = rng.choice([65536, 70000, 300000, (1 << 20) - 1, 1 << 20])
             steps.append(["pub", L, rng.choice(types), dm, dh, size])
         if rng.random() < 0.35:
             steps.append(["round", {"seed": rng.getrandbits(30)}])
